@@ -42,7 +42,7 @@ ASSUMPTIONS = [
 
 def budget(tier):
     if tier == 'thorough':
-        return {'seeds': 60000, 'chunk': 100, 'wall_cap': 1500, 'extra': {'big': True}}
+        return {'seeds': 180000, 'chunk': 200, 'wall_cap': 1200, 'extra': {'big': True}}
     return {'seeds': 12000, 'chunk': 100, 'wall_cap': 240, 'extra': None}
 
 
@@ -448,7 +448,7 @@ def run(plan, stats):
             if models[mi] != snapshots[mi] and immut['bad'] is None:
                 viols.append(Violation(PROP, 'immutable', 'model-modified-by-execution', {'model': mi, 'when': 'restart'}))
     sample = None
-    if stats.c['runs'] % 41 == 1:
+    if plan.get('seed', 0) % 41 == 1:
         from .. import ir
         sample = {'seed': plan.get('seed'), 'models': [ir.render_statements(m['model'])[:25] for m in plan['models']],
                   'clients': [{k: v for k, v in c.items() if k != 'answers'} for c in plan['clients']],
